@@ -6,11 +6,11 @@ PROP = {
                   "emit::level::{MinLevelFilter::matches, treat_unleveled_as, Level::from_str, parse, Level as FromValue}"],
     "bounds": "level property absent / typed (4 levels) / text of <= 4 bytes over {i,I,n,f,o,d,b,g,e,E,r,w,W,a,1,blank,(,0x01} / non-level value; "
               "minimum and default any level; numeric MinLevelFilter<u8> over all u8; "
-              "MinLevelPathMap: families of two CONCRETE registration paths and a concrete event module (nested, prefix-sharing siblings, repeated, "
-              "registered name deeper in an unrelated path, skipped segment, root mismatch; 7 quick + 3 thorough families) with symbolic presence of "
-              "each registration, symbolic order, any levels, optional default of any level, any typed event level",
+              "MinLevelPathMap: quick = 7 families of ONE concrete registered path (symbolic presence, any level) + optional default of any level + concrete event module "
+              "(exact, descendant, prefix-sharing sibling, sibling child, ancestor only, registered name after an unregistered segment, inner mismatch), any typed event level; "
+              "thorough = 5 families of TWO concrete registrations in symbolic order (nested, sibling, repeated, unrelated suffix, root mismatch)",
     "outside": "level texts longer than 4 bytes (6 in the C15 parser harness); path maps with more than 2 registrations or paths outside the written families (symbolic paths: str::split's TwoWaySearcher does not finish)",
-    "stubs": [],
+    "stubs": ["Value::parse -> assert-unreachable in the path-map harnesses (the event level there is a typed Level: the text fallback of Level::from_value is dead; the lenient text grammar is decided by c17_q_min_level_filter)", "Path::segments: std str::split(\"::\") -> hand-written scanner with the same semantics (stubs/split_scanner.toml; std trusted, TwoWaySearcher does not finish under CBMC)"],
     "assumptions": ["text is valid UTF-8 (ASCII alphabet)"],
     "timeout": {"quick": 700, "thorough": 3600},
 }
